@@ -324,12 +324,6 @@ Proof.
   destruct a; [now constructor|exact Vs].
 Qed.
 
-Lemma dominates_refl r : valid_res r -> dominates r r.
-Proof.
-  intros H. apply valid_res_parts in H as (_ & _ & Hm & Ht).
-  split; [apply le_oz_refl|]. split; [apply le_oz_refl|]. split; [now apply size_le_refl|now apply dur_le_refl].
-Qed.
-
 Lemma map_opt_enc_refl ch : list_eqb sx_eqb (map (sx_opt sx_res) ch) (map (sx_opt sp_enc) ch) = true.
 Proof.
   rewrite (map_ext (sx_opt sp_enc) (sx_opt sx_res)); [apply list_sx_eqb_refl|].
